@@ -147,6 +147,45 @@ func validate(t *translated, timeout time.Duration, skip map[string]bool) traceV
 	return v
 }
 
+// validateFree judges a recording that GluonLocksTrace could not follow by the lock discipline alone (GluonLocksFree.tla):
+// "" = the hierarchy is respected along the whole recording; otherwise the violated invariant and the event.
+func validateFree(t *translated, timeout time.Duration) (inv string, at int, problem string) {
+	cfg := "INIT Init\nNEXT Next\nCONSTRAINT Mark\nINVARIANTS LockOrderRespected\nPOSTCONDITION Report\nCHECK_DEADLOCK FALSE\n"
+	consumed, ln := int64(-1), int64(0)
+	res, err := tlc.Run(tlc.Options{
+		SpecDir: filepath.Join(ev.Root(), "spec"), Module: "GluonLocksFree", CfgText: cfg,
+		Workers: 1, Timeout: timeout, KeepOutput: true, HeapGB: 4, DumpTrace: "ce.json",
+		ExtraFiles: map[string][]byte{"trace.ndjson": t.ndjson()},
+		OnJSON: func(raw []byte) {
+			var x struct {
+				Consumed *int64 `json:"consumed"`
+				Len      int64  `json:"len"`
+			}
+			if json.Unmarshal(raw, &x) == nil && x.Consumed != nil {
+				consumed, ln = *x.Consumed, x.Len
+			}
+		},
+	})
+	switch {
+	case err != nil:
+		return "", 0, err.Error()
+	case res.TimedOut:
+		return "", 0, "TLC timed out on the trace (GluonLocksFree)"
+	case res.ViolationKind == "invariant":
+		if m := reLJSON.FindAllSubmatch(res.TraceJSON, -1); len(m) > 0 {
+			n, _ := strconv.Atoi(string(m[len(m)-1][1]))
+			at = n - 1
+		} else if m := reL.FindAllStringSubmatch(res.Output, -1); len(m) > 0 {
+			n, _ := strconv.Atoi(m[len(m)-1][1])
+			at = n - 1
+		}
+		return res.Violated, at, ""
+	case res.Violated != "" || consumed != ln || consumed < 0:
+		return "", 0, fmt.Sprintf("GluonLocksFree did not consume the recording (violated=%q error=%q consumed=%d of %d)", res.Violated, res.Error, consumed, ln)
+	}
+	return "", 0, ""
+}
+
 func tail(s string, n int) string {
 	if len(s) > n {
 		return s[len(s)-n:]
